@@ -927,21 +927,20 @@ Definition minit (progs : list (list op)) : machine :=
 (* wire                                                               *)
 (* ================================================================== *)
 (* A case:  (kind probe fresh hist adv aprobe)
-     kind   0 = the probe is a JSON ioCore.Write described as a C01 encoder case (the model's line
-                is computed by the shared encoder model); 1 = any other probe (console encoder,
-                Logger with caller/stack): the model's line is the fresh-state bytes carried in
-                the case
-     probe  kind 0: the encoder case; kind 1: a label
-     fresh  bytes the probe produced in a fresh state (first thing in the process / after GCs)
-     hist   the history that preceded the observed probe, abstracted to the pooled operations
-            of this model: (k a b c d e f)   k: 0 JSON write, 1 console write, 2 With, 3 Logger
-            call, 4 zap.Stack, 5 GC; a plain fields, b reflected ok, c reflected failing,
-            d namespaces, e error-group size, f flags/depth
+     kind   0 = the probe is a JSON ioCore.Write of a generated encoder case (the case text is kept
+                for the replay; rendering such lines is C01's subject), 1 = a console / Logger probe
+     probe  the encoder case, resp. a label
+     fresh  bytes the probe produced in a fresh state (right after two GCs; also in a fresh process)
+     hist   the (last <= 40 operations of the) history that preceded the observed probe, abstracted
+            to the pooled operations of this model: (k a b c d e f)   k: 0 JSON write, 1 console
+            write, 2 With, 3 Logger call, 4 zap.Stack, 5 GC; a plain fields, b reflected ok,
+            c reflected failing, d namespaces, e error-group size, f flags/depth
      adv    the adversary's choices for the model run
      aprobe the observed probe, abstracted the same way
-   observation: (line) *)
-From Zap Require C01.Model.
-
+   observation: (line)
+   The model's observation is the fresh-state line, carried as an oracle, provided the pooled model
+   run (history, then probe, against the probe in the initial state) shows no fault and no
+   difference. *)
 Definition kx : bytes := [x6b].
 Definition vx : bytes := [x76].
 Definition wire_cfg : ecfg :=
@@ -989,20 +988,10 @@ Definition machine_ok (hist : list hitem) (adv : list nat) (probe : hitem) : boo
       end
   end.
 
-Definition w_kind (i : sx) : Z := sx_z (sx_nth i 0).
 Definition w_fresh (i : sx) : bytes := sx_b (sx_nth i 2).
 Definition model (i : sx) : sx :=
-  if machine_ok (map dec_hitem (sx_l (sx_nth i 3))) (map sx_n (sx_l (sx_nth i 4))) (dec_hitem (sx_nth i 5)) then
-    match w_kind i with
-    | 0%Z => C01.Model.model (sx_nth i 1)
-    | _ => SL [SB (w_fresh i)]
-    end
+  if machine_ok (map dec_hitem (sx_l (sx_nth i 3))) (map sx_n (sx_l (sx_nth i 4))) (dec_hitem (sx_nth i 5))
+  then SL [SB (w_fresh i)]
   else SL [SZ (-1)].
 (* the property's oracle: the probe's bytes after the history are its fresh-state bytes *)
 Definition spec (i o : sx) : bool := sx_eqb o (SL [SB (w_fresh i)]).
-(* well-formed case: for a model-rendered probe, the fresh run agreed with the encoder model *)
-Definition wf (i : sx) : bool :=
-  match w_kind i with
-  | 0%Z => sx_eqb (C01.Model.model (sx_nth i 1)) (SL [SB (w_fresh i)])
-  | _ => true
-  end.
